@@ -47,6 +47,20 @@ def lsl():
     return m
 
 
+def plain(val):
+    """JSON-able rendering of a node value: ints and Python floats as they are, arrays as a rounded list"""
+    if val is None or isinstance(val, (bool, int, float)):
+        return val
+    try:
+        import numpy as np
+        a = np.asarray(val)
+        if a.dtype.kind in "fiu" and a.size <= 8:
+            return ["arr"] + [round(float(x), 5) for x in a.ravel()]
+        return "arr"
+    except Exception:
+        return "obj"
+
+
 # ---------------------------------------------------------------------------------------------
 # registry + snapshot
 # ---------------------------------------------------------------------------------------------
@@ -120,10 +134,7 @@ class Registry:
         for n in self.nodes:
             m = n.model
             val = n.value if not isinstance(n, L.TransientNode) else None
-            try:
-                val = int(val) if val is not None and not hasattr(val, "shape") else (None if val is None else "arr")
-            except Exception:
-                val = "obj"
+            val = plain(val)
             nodes.append({
                 "kind": type(n).__name__, "name": n.name,
                 "pos": [self.nid(x) for x in n.inputs],
@@ -143,7 +154,8 @@ class Registry:
             vs.append({"name": v.name, "value": self.nid(v.value_node), "varvalue": self.nid(v.var_value_node),
                        "dist": (self.nid(v.dist_node) if v.dist_node is not None else None),
                        "obs": bool(v.observed), "par": bool(v.parameter),
-                       "groups": [self.gid(g) for g in v.groups.values()], "inmodel": v.model is not None})
+                       "groups": [self.gid(g) for g in v.groups.values()], "inmodel": v.model is not None,
+                       "auto": bool(v.auto_transform)})
         return {"nodes": nodes, "vars": vs, "gnames": [g.name for g in self.groups]}
 
 
@@ -162,7 +174,10 @@ def construct(prog, reg: Registry):
     for k, o in enumerate(prog["objs"]):
         kind = o["k"]
         if kind == "value":
-            x = L.Value(int(o["val"]), _name=o["name"])
+            x = L.Value(float(o["val"]) if o.get("float") else int(o["val"]), _name=o["name"])
+        elif kind == "tdist":
+            import tensorflow_probability.substrates.jax.distributions as tfd
+            x = L.Dist(getattr(tfd, o.get("family", "Exponential")), ref(o["rate"]), _name=o["name"], _needs_seed=bool(o.get("seed")))
         elif kind == "calc":
             x = L.Calc(Fn(k), *[ref(r) for r in o["pos"]], _name=o["name"], _needs_seed=bool(o.get("seed")),
                        **{kw: ref(r) for kw, r in o.get("kw", [])})
@@ -171,9 +186,11 @@ def construct(prog, reg: Registry):
                        **{kw: ref(r) for kw, r in o.get("kw", [])})
         elif kind == "var":
             val = o["value"]
-            val = int(val["const"]) if isinstance(val, dict) else ref(val)
+            val = (float(val["fconst"]) if "fconst" in val else int(val["const"])) if isinstance(val, dict) else ref(val)
             d = ref(o["dist"]) if o.get("dist") is not None else None
             x = L.Var(val, d, name=o["name"])
+            if o.get("auto"):
+                x.auto_transform = True
             if o.get("role") == "param":
                 x.parameter = True
             elif o.get("role") == "obs":
@@ -209,6 +226,9 @@ def evaluate(reg: Registry, snap, ids):
     memo = {}
     nodes = snap["nodes"]
 
+    def isint(x):
+        return isinstance(x, int) and not isinstance(x, bool)
+
     def val(i, depth=0):
         if i in memo:
             return memo[i]
@@ -217,25 +237,25 @@ def evaluate(reg: Registry, snap, ids):
         n = nodes[i]
         obj = reg.nodes[i]
         kind = n["kind"]
+        r = None
         if kind in ("Value", "Data"):
-            r = n["value"]
+            r = n["value"] if isint(n["value"]) else None
         elif kind in ("VarValue", "TransientIdentity"):
             r = val(n["pos"][0], depth + 1)
-        elif kind == "Dist":
-            args = [val(j, depth + 1) for j in n["pos"]]
-            kws = [val(j, depth + 1) for kw, j in n["kw"] if kw != "seed"]
+        elif kind == "Dist" and tag_of(obj) is not None:
+            args = [val(j, depth + 1) for j in n["pos"]] + [val(j, depth + 1) for kw, j in n["kw"] if kw != "seed"]
             at = val(n["at"], depth + 1)
-            r = None if at is None or isinstance(at, str) else -abs(at - (sum(args) + sum(kws)))
+            r = -abs(at - sum(args)) if isint(at) and all(isint(a) for a in args) else None
         elif kind == "Calc":
             args = [val(j, depth + 1) for j in n["pos"]]
             kws = [val(j, depth + 1) for kw, j in n["kw"] if kw != "seed"]
             t = tag_of(obj)
-            if t is None:      # _model_log_* : _reduced_sum
-                r = sum(a for a in args)
+            if not all(isint(a) for a in args + kws):
+                r = None
+            elif t is None:
+                r = sum(args) if n["name"].startswith("_model_log") else None     # _reduced_sum
             else:
                 r = 1 + t % 3 + sum(args) + sum(kws)
-        else:
-            r = None
         memo[i] = r
         return r
 
@@ -294,12 +314,7 @@ def model_summary(model, with_state=True):
             items = []
             st["?"] = ["state raised " + type(ex).__name__, True]
         for name, s in items:
-            v = s.value
-            try:
-                v = int(v) if v is not None and not hasattr(v, "shape") else (None if v is None else "arr")
-            except Exception:
-                v = "obj"
-            st[name] = [v, bool(s.outdated)]
+            st[name] = [plain(s.value), bool(s.outdated)]
     return {"nodes": out, "vars": vs, "edges": edges, "state": st}
 
 
